@@ -31,7 +31,7 @@ def main():
     if tier not in ("quick", "thorough", "lines"):
         sys.exit(__doc__)
     by = {}
-    for f in sorted(glob.glob(os.path.join(core.OUT, "replays", "C08", "*.json"))) if tier != "lines" else []:
+    for f in sorted(glob.glob(os.path.join(core.OUT, "replays", "C08", "*", "*.json"))) if tier != "lines" else []:
         r = json.load(open(f))
         cls = r["what"].split("]")[0][1:]
         by.setdefault(cls, []).append(r)
